@@ -100,8 +100,12 @@ func (e *Exec) smtTextW(o *Obligation, withModel bool, weak bool) string {
 }
 
 func runSolver(s Solver, file string, timeoutS int) (status string, out string, dur float64) {
+	return runSolverCtx(context.Background(), s, file, timeoutS)
+}
+
+func runSolverCtx(parent context.Context, s Solver, file string, timeoutS int) (status string, out string, dur float64) {
 	args := s.Cmd(file, timeoutS)
-	ctx, cancel := context.WithTimeout(context.Background(), time.Duration(timeoutS+5)*time.Second)
+	ctx, cancel := context.WithTimeout(parent, time.Duration(timeoutS+5)*time.Second)
 	defer cancel()
 	cmd := exec.CommandContext(ctx, args[0], args[1:]...)
 	var buf bytes.Buffer
@@ -200,19 +204,42 @@ func solveOne(e *Exec, o *Obligation, workDir string, timeoutS int) {
 		o.Status, o.Solver, o.Output, o.TimeS = st, solvers[0].Name, out, total+dur
 		return
 	}
-	for i, s := range solvers {
-		t := timeoutS
-		if i > 0 && t > 10 {
-			t = t / 2
-		}
-		st, out, dur := runSolver(s, file, t)
+	// stage 2: the first solver alone with a short limit (decides almost everything)
+	short := 2
+	if st, out, dur := runSolver(solvers[0], file, short); st == "unsat" || st == "sat" {
+		o.Status, o.Solver, o.Output, o.TimeS = st, solvers[0].Name, out, total+dur
+		return
+	} else {
 		total += dur
-		o.Status, o.Solver, o.Output = st, s.Name, out
-		if st == "unsat" || st == "sat" {
-			break
-		}
+		o.Status, o.Solver, o.Output = st, solvers[0].Name, out
 	}
-	o.TimeS = total
+	// stage 3: race the whole portfolio with the full limit; the first definite answer wins
+	type ans struct {
+		st, out, name string
+		dur           float64
+	}
+	ctx, cancel := context.WithCancel(context.Background())
+	defer cancel()
+	ch := make(chan ans, len(solvers))
+	for _, s := range solvers {
+		go func(s Solver) {
+			st, out, dur := runSolverCtx(ctx, s, file, timeoutS)
+			ch <- ans{st, out, s.Name, dur}
+		}(s)
+	}
+	worst := 0.0
+	for range solvers {
+		a := <-ch
+		if a.dur > worst {
+			worst = a.dur
+		}
+		if a.st == "unsat" || a.st == "sat" {
+			o.Status, o.Solver, o.Output, o.TimeS = a.st, a.name, a.out, total+a.dur
+			return
+		}
+		o.Status, o.Solver, o.Output = a.st, a.name, a.out
+	}
+	o.TimeS = total + worst
 }
 
 func (o *Obligation) Passed() bool {
